@@ -585,6 +585,7 @@ pub fn check_main(tier: Tier) -> i32 {
             "same_state_comparisons(I1)": ws.oracle.comparisons,
             "pristine_build_anchor_comparisons(I2)": ws.oracle.anchor_comparisons,
             "pristine_render_anchor_comparisons(I2)": ws.oracle.render_anchor_comparisons,
+            "ondemand_pristine_comparisons(I2)": ws.oracle.ondemand_pristine_comparisons,
             "qr_unmodified_checks(I3)": ws.oracle.qr_unmodified_checks,
             "outcomes": ws.oracle.outcomes,
             "ops": ws.oracle.ops,
